@@ -194,3 +194,39 @@ func HarnessC15Send(a []int) {
 	verifObserve("len", len(conn.last))
 	verifCover("C15.send.end")
 }
+
+func init() {
+	verifHarnesses["HarnessC15PackSeq"] = HarnessC15PackSeq
+}
+
+// HarnessC15PackSeq: a = {service 10 | 12, first name length, second name length, second name has a rune
+// beyond Latin-1}: two values are encoded one after the other; no byte of the second encoding may
+// depend on the first value (state kept between calls).
+func HarnessC15PackSeq(a []int) {
+	mk := func(name string) ServicePackable {
+		d := c02DeviceInfo(0)
+		d.FriendlyName = name
+		if a[0] == 10 {
+			return &SearchRes{Control: c02HostInfo(), DescriptionB: DescriptionBlock{DeviceHardware: d, SupportedServices: c02Families(1)}}
+		}
+		return &DescriptionRes{DeviceHardware: d, SupportedServices: c02Families(1)}
+	}
+	first := make([]rune, a[1])
+	for i, b := range nondetGarbage(a[1]) { // the first name is the "stale" state
+		first[i] = rune(b&0x7F | 1)
+	}
+	_ = AllocAndPack(mk(string(first)))
+	second := make([]rune, a[2])
+	for i := range second {
+		second[i] = rune(nondetU8()&0x7F | 1)
+	}
+	if a[3] == 1 && a[2] > 0 {
+		second[a[2]/2] = 0x100 + rune(nondetU16())
+	}
+	out := AllocAndPack(mk(string(second)))
+	for i := range out {
+		verifAssert("C15.stale.second_encoding_independent_of_first", verifIndep(out[i]))
+	}
+	verifObserveNative("out", out)
+	verifCover("C15.packseq.end")
+}
